@@ -279,6 +279,13 @@ let oracle toks impl model =
   let res = split_results impl in
   let mres = split_results model in
   let iter_count : (int, int) Hashtbl.t = Hashtbl.create 7 in
+  (* try_compile answers seen before the number of derivatives of the term is known: judged as soon
+     as an iter statement on the same term supplies the count *)
+  let pending_tc : (int * int * string * int * string list) list ref = ref [] in
+  let judge_tc cnt (bound, r, i, s) bad_ =
+    let exp = if cnt <= bound && bound > 0 then "S " ^ string_of_int cnt else "N" in
+    if r <> exp && r <> "PANIC" then
+      bad_ i s (Printf.sprintf "try_compile = %s but iter_derivatives yields %d terms (bound %d): expected %s" r cnt bound exp) in
   (* replay the case on the model to obtain the programs of the values (programs do not depend on
      the model's answers, only on the statements) *)
   let st = { m = new_mgr; v = []; n = 0 } in
@@ -339,6 +346,8 @@ let oracle toks impl model =
             | cnt :: ids :: _ ->
               let ids = String.split_on_char ',' ids in
               Hashtbl.replace iter_count k (int_of_string cnt);
+              List.iter (fun (k', bound, r', i', s') -> if k' = k then judge_tc (int_of_string cnt) (bound, r', i', s') bad) !pending_tc;
+              pending_tc := List.filter (fun (k', _, _, _, _) -> k' <> k) !pending_tc;
               if List.length (List.sort_uniq compare ids) <> List.length ids then bad i s "iter_derivatives yields a term twice";
               if not (List.mem "first=T" (String.split_on_char ' ' r)) then bad i s "iter_derivatives does not yield e first";
               if int_of_string cnt <> List.length ids then bad i s "count mismatch"
@@ -387,7 +396,7 @@ let oracle toks impl model =
             | Some cnt ->
               let exp = if cnt <= bound && bound > 0 then "S " ^ string_of_int cnt else "N" in
               if r <> exp then bad i s (Printf.sprintf "try_compile = %s but iter_derivatives yielded %d terms (bound %d): expected %s" r cnt bound exp)
-            | None -> ())
+            | None -> pending_tc := (k, bound, r, i, s) :: !pending_tc)
        | _ -> ());
       (* advance the model state to keep programs / values aligned *)
       ignore (stmt st s)) stmts
